@@ -27,7 +27,8 @@ type registry interface {
 	clone() map[string]int64    // nil: the registry has no snapshot operation
 }
 
-var registryNames = []string{"untyped", "namespaced", "combiner", "decoder", "sd", "gin-render", "mux-render"}
+var registryNames = []string{"untyped", "namespaced", "combiner", "decoder", "sd", "gin-render", "mux-render",
+	"gin-render-handler", "mux-render-handler"}
 
 // newRegistry returns an adapter. Registries that are process-wide (combiner, decoder, sd,
 // renders) are shared by every adapter of that kind: scenarios use their own key prefixes.
